@@ -137,4 +137,12 @@ def cases():
             {"name": "middle", "sources": ["middle.c"], "depends": ["thirdparty"]},
             {"name": "genver", "is_build_dep": True, "build": {"cmd": ["ver > ${out}"], "out": ["gen/version.h"]}}]
     out.append((dlbase(mods, [{"name": "app", "sources": ["main.c"], "depends": ["middle", "genver"]}]), {}))
+    # 23: contexts declared before their parents (the default context last): env and var_options still come down the chain
+    f = {"laze-project.yml": [{"contexts": [{"name": "board", "parent": "family", "env": {"CFLAGS": ["b"], "LIBS": ["lb"]}},
+                                            {"name": "soc", "parent": "board", "env": {"CFLAGS": ["s"]}},
+                                            {"name": "family", "env": {"CFLAGS": ["f"], "X": "from-family"}, "var_options": {"LIBS": {"prefix": "-l"}}},
+                                            {"name": "default", "rules": RULES, "env": {"bindir": "${build-dir}/${builder}/${app}", "CFLAGS": ["d"], "ROOTVAR": "from_default", "X": "${ROOTVAR}"}}],
+                               "builders": [{"name": "b0", "parent": "soc", "env": {"CFLAGS": ["${ROOTVAR}"]}}, {"name": "b1", "parent": "family"}],
+                               "apps": [{"name": "app", "sources": ["main.c"]}]}]}
+    out.append((f, {}))
     return out
